@@ -571,3 +571,16 @@ Proof.
   2:{ intros x Hin. apply ext_roundtrip. rewrite forallb_forall in He. apply He. exact Hin. }
   cbn [bind]. rewrite rt_mods_roundtrip; [destruct p; reflexivity|]. intros pre m post E. apply (Hm pre m post). exact E.
 Qed.
+
+(* ------------------------------------------------------------------------------------------ primitive parameter schemas *)
+(* table-level coherence of export order and parameter class, for every primitive: the exported names are distinct,
+   the fields are distinct, and each field is exported exactly under the name the importer reads it from *)
+Definition schema_coherent (sc : pschema) : bool :=
+  snodup (map fst (sc_export sc)) && snodup (map snd (sc_export sc)) && snodup (map pf_name (sc_fields sc)) &&
+  Nat.eqb (List.length (sc_export sc)) (List.length (sc_fields sc)) &&
+  forallb (fun f => match assoc (pf_vname f) (sc_export sc) with Some fn => String.eqb fn (pf_name f) | None => false end) (sc_fields sc).
+
+Lemma prim_schemas_coherent :
+  forallb (fun e : string * string * list (string * string * bool * bool) =>
+     match schema_of (fst (fst e)) with Ok sc => schema_coherent sc | Error _ => false end) prim_fields = true.
+Proof. vm_compute. reflexivity. Qed.
